@@ -257,6 +257,13 @@ def fiberTags (dflt : Int) (d : Nat) (a b : T (d + 1)) : List String :=
   (if pb.any (fun e => !hasCoord pa e.1) then ["bonly"] else [])
 
 
+/-- how an operand got an active range different from (0, shape); the model does not depend on it -/
+def actTags (j : Json) : List String :=
+  let one (k : String) : List String := match j.getObjVal? k with
+    | .ok a => ["active:" ++ fStrD a "how" "?"]
+    | .error _ => []
+  one "act" ++ one "actb"
+
 def handleScalarLeaf (j : Json) (op : String) (dflt : Int) : Except String Verdict := do
   let s ← fInt j "s"
   let isAdd := op == "sadd" || op == "radd" || op == "isadd"
@@ -277,7 +284,7 @@ def handleScalarLeaf (j : Json) (op : String) (dflt : Int) : Except String Verdi
   let mT : T 1 := show List (Int × T 0) from m
   let tags := [s!"fiber:{op}", "leaf", s!"dflt{dflt}", if (c11OptNat j "shape").isSome then "shape-declared" else "shape-estimated"] ++
     (if a0.isEmpty then ["emptyA"] else []) ++ (if a0.any (fun e => e.2 == dflt) then ["explicit-default"] else []) ++
-    (if isAdd && a0.length < n then ["fills"] else []) ++ (if s == 0 then ["s=0"] else [])
+    (if isAdd && a0.length < n then ["fills"] else []) ++ (if s == 0 then ["s=0"] else []) ++ actTags j
   match implOut with
   | some out =>
     let out0 : Fib Int Int := show List (Int × T 0) from out
@@ -343,7 +350,7 @@ def handleFiber (j : Json) : Except String Verdict := do
       | "iadd" => iaddT dflt (d + 1) a b
       | _ => imulT dflt d a b
     let exp : Int → Int → Int := if op == "add" || op == "iadd" then addExpect dflt else mulExpect dflt
-    let tags := [s!"fiber:{op}", dtag, s!"dflt{dflt}"] ++ fiberTags dflt d a b
+    let tags := [s!"fiber:{op}", dtag, s!"dflt{dflt}"] ++ fiberTags dflt d a b ++ actTags j
     match implOut with
     | some out =>
       let structEq := (treeToJson (d + 1) out).compress == (treeToJson (d + 1) m).compress
